@@ -1,8 +1,319 @@
-import Driver.Util
-/-! Line-protocol driver for C20 (not built yet). -/
+import Lean.Data.Json
+import GqlgenVerif.Model.Entities
+/-!
+Line-protocol driver for C20. Lines:
+
+* `cfg <json>`   — the entity table printed by `go/harness/c20 -mode config` (kept until the next `cfg`); answers `ok`
+* `case <json>`  — one case (`reps`, `plan`) of `go/harness/c20 -mode cases`; answers one JSON object with
+  `impl` (what the model of the generated code predicts: data, errors, entity-resolver calls), `spec` (every
+  representation resolved directly, by itself) and `groups` (facts about the batch groups used to classify
+  a deviation between the two).
+
+The user code of a case (`User`) is the mirror of the plan-driven stubs in `go/harness/c20/rt/rt.go`.
+-/
+open Lean GqlgenVerif.Entities
+
 namespace Driver.C20
-def step (_line : String) : String := "bad-op"
+
+def str (j : Json) (k : String) : String := (j.getObjValAs? String k).toOption.getD ""
+def boolD (j : Json) (k : String) : Bool := (j.getObjValAs? Bool k).toOption.getD false
+def arr (j : Json) (k : String) : List Json :=
+  match j.getObjVal? k with
+  | .ok (.arr a) => a.toList
+  | _ => []
+def strs (j : Json) (k : String) : List String := (arr j k).filterMap fun x => x.getStr?.toOption
+
+def ktype (s : String) : KType :=
+  match s with
+  | "ID!" => .id | "String!" => .string | "Int!" => .int
+  | "ID" => .optId | "Int" => .optInt | _ => .optString
+
+structure KeyAux where
+  goField : String
+
+structure EntAux where
+  name : String
+  fields : List String
+  reqFields : List String
+  requires : List (List String)
+
+structure Aux where
+  cfg : Cfg
+  noptr : Bool
+  /-- resolver name ↦ (Go name, Go names of the input struct fields) -/
+  res : List (String × String × List String)
+  ents : List EntAux
+
+def keyField (j : Json) : KeyField :=
+  { path := strs j "path", ty := ktype (str j "type"), defName := str j "defName" }
+
+def decodeCfg (j : Json) : Aux :=
+  let ents := arr j "entities"
+  { cfg :=
+      { entities := ents.map fun e =>
+          { name := str e "name", multi := boolD e "multi",
+            resolvers := (arr e "resolvers").map fun r => { name := str r "name", keys := (arr r "keys").map keyField },
+            requires := (arr e "requires").map keyField },
+        explicitRequires := boolD j "explicit", computedRequires := boolD j "computed" },
+    noptr := boolD j "noptr",
+    res := ents.flatMap fun e => (arr e "resolvers").map fun r =>
+      (str r "name", str r "goName", (arr r "keys").map fun k => str k "goField"),
+    ents := ents.map fun e =>
+      { name := str e "name", fields := strs e "fields", reqFields := strs e "reqFields",
+        requires := (arr e "requires").map fun k => strs k "path" } }
+
+partial def jv (j : Json) : JV :=
+  match j with
+  | .null => .null
+  | .str s => .str s
+  | .bool b => .bool b
+  | .num n => .num n.mantissa
+  | .arr a => .arr (a.toList.map jv)
+  | .obj m => .obj (m.toList.map fun (k, v) => (k, jv v))
+
+def repOf (j : Json) : Rep :=
+  match jv j with
+  | .obj fs => fs
+  | _ => []
+
+/-! canonical renderings (mirror of rt.RenderKey / rt.RenderJSON) -/
+
+def quote (s : String) : String :=
+  "\"" ++ String.join (s.toList.map fun c => if c == '"' || c == '\\' then "\\" ++ c.toString else c.toString) ++ "\""
+
+def renderKV : KV → String
+  | .str s => quote s
+  | .int n => toString n
+  | .nil => "nil"
+
+def insertSorted (x : String × JV) : List (String × JV) → List (String × JV)
+  | [] => [x]
+  | y :: ys => if x.1 < y.1 then x :: y :: ys else y :: insertSorted x ys
+
+partial def renderJV : JV → String
+  | .null => "null"
+  | .str s => quote s
+  | .num n => toString n
+  | .bool b => toString b
+  | .arr xs => "[" ++ ",".intercalate (xs.map renderJV) ++ "]"
+  | .obj fs =>
+    let sorted := fs.foldr insertSorted []
+    "{" ++ ",".intercalate (sorted.map fun (k, v) => k ++ ":" ++ renderJV v) ++ "}"
+
+/-! the plan -/
+
+structure Oc where
+  kind : String := ""
+  msg : String := ""
+  op : String := ""
+
+abbrev Plan := List (String × Oc)
+
+def decodePlan (j : Json) : Plan :=
+  match j.getObjVal? "plan" with
+  | .ok (.obj m) => m.toList.map fun (k, v) => (k, { kind := str v "kind", msg := str v "msg", op := str v "op" })
+  | _ => []
+
+def planLookup (p : Plan) (keys : List String) : Oc :=
+  match keys.findSome? fun k => p.lookup k with
+  | some o => o
+  | none => {}
+
+def popFault (rep : Rep) : String × String :=
+  match rep.lookup "_pop" with
+  | some (.str v) =>
+    match v.splitOn ":" with
+    | k :: rest@(_ :: _) => (k, ":".intercalate rest)
+    | _ => ("", "")
+  | _ => ("", "")
+
+def goNameOf (a : Aux) (name : String) : String := ((a.res.lookup name).map (·.1)).getD name
+def goFieldsOf (a : Aux) (name : String) : List String := ((a.res.lookup name).map (·.2)).getD []
+
+def singleCall (a : Aux) (name : String) (args : List KV) : String :=
+  goNameOf a name ++ "(" ++ ",".intercalate (args.map renderKV) ++ ")"
+
+def renderInput (a : Aux) (name : String) (args : List KV) : String :=
+  "{" ++ ",".intercalate ((goFieldsOf a name).zipWith (fun f v => f ++ ":" ++ renderKV v) args) ++ "}"
+
+def multiCall (a : Aux) (name : String) (argss : List (List KV)) : String :=
+  goNameOf a name ++ "([" ++ ",".intercalate (argss.map (renderInput a name)) ++ "])"
+
+def applyOp (op : String) (extra : String) (es : List (Option String)) : List (Option String) :=
+  if op.startsWith "drop:" then
+    let p := (op.drop 5).toNat!
+    if es.isEmpty then es else
+    let p := p % es.length
+    es.take p ++ es.drop (p + 1)
+  else if op == "extra" then es ++ [some extra]
+  else if op == "rev" then es.reverse
+  else if op == "empty" then []
+  else es
+
+def userOf (a : Aux) (p : Plan) : User :=
+  { single := fun name args =>
+      let o := planLookup p (args.map renderKV)
+      match o.kind with
+      | "error" => .err o.msg
+      | "panic" => .panic o.msg
+      | "nil" => if a.noptr then .value (singleCall a name args) else .nil
+      | _ => .value (singleCall a name args),
+    multi := fun name argss =>
+      let ocs := argss.map fun args => planLookup p (args.map renderKV)
+      let es := (argss.zip ocs).map fun (args, o) =>
+        if o.kind == "nil" then none else some (goNameOf a name ++ "(" ++ renderInput a name args ++ ")")
+      match ocs.find? fun o => o.kind == "error" || o.kind == "panic" with
+      | some o => if o.kind == "panic" then .panic o.msg else .err o.msg
+      | none =>
+        let op := ((ocs.find? fun o => o.op != "").map (·.op)).getD ""
+        .values (applyOp op (goNameOf a name ++ "(extra)") es),
+    populate := fun _ ent rep =>
+      match popFault rep with
+      | ("error", m) => .err m
+      | ("panic", m) => .panic m
+      | _ => if ent.isNil then .ok ent else .ok { ent with echo := some (renderJV (.obj rep)) } }
+
+/-! entity-resolver calls the generated code is expected to make (replays the model's own steps) -/
+
+def taskCalls (a : Aux) : Task → List String
+  | .single ty _ rep =>
+    match a.cfg.find ty with
+    | none => []
+    | some e =>
+      if e.resolvers.isEmpty || e.multi then [] else
+      match selectResolver e rep with
+      | .error _ => []
+      | .ok r =>
+        match keyArgs rep (fun _ _ m => m) r.keys 0 with
+        | .error _ => []
+        | .ok args => [singleCall a r.name args]
+  | .multi ty reps =>
+    match a.cfg.find ty, reps with
+    | some e, (_, rep0) :: _ =>
+      match selectResolver e rep0 with
+      | .error _ => []
+      | .ok r =>
+        match typedReps r reps with
+        | .error _ => []
+        | .ok argss => [multiCall a r.name argss]
+    | _, _ => []
+
+/-! rendering a result as the response the probe query selects -/
+
+def kvJson : KV → Json
+  | .str s => .str s
+  | .int n => .num (JsonNumber.fromInt n)
+  | .nil => .null
+
+def dedup (l : List String) : List String := l.foldl (fun acc x => if acc.contains x then acc else acc ++ [x]) []
+
+/-- (object or null, field errors) of element `i` -/
+def elemJson (a : Aux) (reps : List Rep) (i : Nat) (c : Option Ent) : Json × List (String × String) :=
+  match c with
+  | none => (.null, [])
+  | some e =>
+    if e.isNil then (.null, []) else
+    match a.ents.find? fun x => x.name == e.ty with
+    | none => (.null, [])
+    | some ea =>
+      let rep := reps.getD i []
+      let base : List (String × Json) := [("__typename", .str e.ty)]
+      let tag := if ea.fields.contains "tag" then [("tag", Json.str e.tag)] else []
+      let echo := if ea.fields.contains "reqEcho" then
+        [("reqEcho", match e.echo with | some s => Json.str s | none => .null)] else []
+      let look (p : List String) : Json := match e.req.lookup p with | some v => kvJson v | none => .null
+      let flat := (ea.requires.filter fun p => p.length == 1).map fun p => (p.headD "", look p)
+      let heads := dedup ((ea.requires.filter fun p => p.length == 2).map fun p => p.headD "")
+      let nested := heads.map fun h =>
+        (h, Json.mkObj ((ea.requires.filter fun p => p.length == 2 && p.headD "" == h).map fun p =>
+          (p.getD 1 "", look p)))
+      let comp : List ((String × Json) × List (String × String)) := ea.reqFields.map fun f =>
+        if a.cfg.computedRequires then
+          match popFault rep with
+          | ("error", m) => ((f, Json.null), [(s!"_entities/{i}/{f}", m)])
+          | ("panic", m) => ((f, Json.null), [(s!"_entities/{i}/{f}", "panic: " ++ m)])
+          | _ => ((f, Json.str (f ++ "(" ++ e.tag ++ "|" ++ renderJV (.obj rep) ++ ")")), [])
+        else ((f, Json.null), [])
+      (Json.mkObj (base ++ tag ++ echo ++ flat ++ nested ++ comp.map (·.1)), comp.flatMap (·.2))
+
+def stJson (a : Aux) (reps : List Rep) (s : St) (calls : List String) : Json :=
+  let els := (s.list.zipIdx).map fun (c, i) => elemJson a reps i c
+  let errs := s.errs.map (fun m => ("_entities", m)) ++ els.flatMap (·.2)
+  Json.mkObj [("data", Json.arr (els.map (·.1)).toArray),
+    ("errors", Json.arr (errs.map fun (p, m) => Json.arr #[.str p, .str m]).toArray),
+    ("calls", Json.arr (calls.map Json.str).toArray)]
+
+/-- facts about the batch groups of a case, to classify deviations of the generated code from the Spec -/
+def groupFacts (a : Aux) (u : User) (reps : List Rep) : Json :=
+  let gs := (groupsOf reps).filter fun g => a.cfg.isMulti g.1
+  Json.arr (gs.map fun (ty, rs) =>
+    let e := (a.cfg.find ty).getD default
+    let sel (rep : Rep) : String := match selectResolver e rep with | .ok r => r.name | .error _ => "!"
+    let first := match rs with | (_, r) :: _ => sel r | [] => "!"
+    let mixed := rs.any fun (_, r) => sel r != first
+    let lenMismatch := match selectResolver e ((rs.headD (0, [])).2) with
+      | .ok r => match typedReps r rs with
+        | .ok argss => match u.multi r.name argss with
+          | .values es => es.length != rs.length
+          | _ => false
+        | _ => false
+      | _ => false
+    -- same length but not the entities of the inputs in order: the user broke the batch contract undetectably
+    let reordered := match selectResolver e ((rs.headD (0, [])).2) with
+      | .ok r => match typedReps r rs with
+        | .ok argss => match u.multi r.name argss with
+          | .values es => es.length == rs.length &&
+              es != argss.map fun a => match u.multi r.name [a] with | .values [x] => x | _ => none
+          | _ => false
+        | _ => false
+      | _ => false
+    -- the user's batch resolver itself failed (error / panic): by design the failure of the whole group
+    let userFault := match selectResolver e ((rs.headD (0, [])).2) with
+      | .ok r => match typedReps r rs with
+        | .ok argss => match u.multi r.name argss with
+          | .values _ => false
+          | _ => true
+        | _ => false
+      | _ => false
+    let eff := resolveMany a.cfg u ty rs
+    Json.mkObj [("type", .str ty), ("indices", Json.arr (rs.map fun x => Json.num (JsonNumber.fromNat x.1)).toArray),
+      ("mixedKeys", .bool mixed), ("lenMismatch", .bool lenMismatch), ("reordered", .bool reordered), ("userFault", .bool userFault), ("failed", .bool eff.2.isSome)]).toArray
+
+def runCase (a : Aux) (j : Json) : String :=
+  let reps := (arr j "reps").map repOf
+  let u := userOf a (decodePlan j)
+  let ts := tasks a.cfg reps
+  let impl := entities a.cfg u reps
+  -- a second, adversarial completion order must give the same result (sanity check of the model run itself)
+  let impl' := runOrder a.cfg u reps ts.reverse
+  let sp := spec a.cfg u reps
+  let calls := ts.flatMap (taskCalls a)
+  (Json.mkObj [("id", .str (str j "id")),
+    ("impl", stJson a reps impl calls),
+    ("spec", stJson a reps sp []),
+    ("specElemErrors", Json.arr (reps.map fun r =>
+        Json.arr ((specElem a.cfg u r).2.map Json.str).toArray).toArray),
+    ("orderIndependent", .bool (impl.list == impl'.list)),
+    ("groups", groupFacts a u reps)]).compress
+
 end Driver.C20
 
+partial def loop (h out : IO.FS.Stream) (st : IO.Ref (Option Driver.C20.Aux)) : IO Unit := do
+  let line ← h.getLine
+  if line.isEmpty then return ()
+  let l := if line.back == '\n' then (line.dropEnd 1).toString else line
+  if l.startsWith "cfg " then
+    match Json.parse (l.drop 4).toString with
+    | .ok j => st.set (some (Driver.C20.decodeCfg j)); out.putStrLn "ok"
+    | .error e => out.putStrLn ("bad-cfg " ++ e)
+  else if l.startsWith "case " then
+    match (← st.get), Json.parse (l.drop 5).toString with
+    | some a, .ok j => out.putStrLn (Driver.C20.runCase a j)
+    | none, _ => out.putStrLn "no-cfg"
+    | _, .error e => out.putStrLn ("bad-case " ++ e)
+  else out.putStrLn "bad-op"
+  loop h out st
+
 def main : IO Unit := do
-  Driver.loop (← IO.getStdin) (← IO.getStdout) Driver.C20.step
+  let st ← IO.mkRef (none : Option Driver.C20.Aux)
+  loop (← IO.getStdin) (← IO.getStdout) st
